@@ -89,3 +89,15 @@ Definition rcase (lr : lres (list N)) (fcode : N) (fdata : list N) : bool :=
   | (FOk r, _) => (fcode =? 0) && listN_eqb (rs_data r) fdata
   | (FErr k, _) => code_num k =? fcode
   end.
+
+(** CloseSession case: the session (four fields), what the local SyncCloseSession returned for it
+    ([None] = closed) and the observed status code (0 = completed without error) *)
+Definition ccase (sess : list N) (lr : option err) (fcode : N) : bool :=
+  match sess with
+  | [a; b; c; d] =>
+      match facade_close_session (fun (w : unit) (_ : nh_session) => (lr, w)) tt (mkPS a b c d) with
+      | (FOk _, _) => fcode =? 0
+      | (FErr k, _) => code_num k =? fcode
+      end
+  | _ => false
+  end.
